@@ -26,12 +26,8 @@ class Affine(tp.models.Model):
 
 def mk_data_fn(fid):
     p, q, r = FT[fid - 1]
-    if fid == 1:
-        def f(x, t=0.0):         # t has a DEFAULT: conditions that sample x only use it; values through the closure
-            return p * x + q * t + r
-        return f
-    if fid == 3:
-        def f(x, t=0.0, p=p, q=q, r=r):
+    if fid in (1, 3):            # ONE def for two functions: t has a DEFAULT (conditions that sample x only use it) and the coefficients are
+        def f(x, t=0.0, p=p, q=q, r=r):          # bound through default arguments too (the lambda x, k=k idiom: same code object, other defaults)
             return p * x + q * t + r
         return f
 
